@@ -8,7 +8,7 @@ where the SOLUTION is chosen first from a closed-form family
 
     y(x) = cs*sin(w*u + p) + ce*exp(l*u) + q0 + q1*u + q2*u^2 + q3*u^3,     u = x - xc,
 
-(optionally plus a correction polynomial sum_j q2_j (x - xc2)^j that makes chosen derivatives at chosen points INTEGERS,
+(optionally plus a term cl*exp((x - xb)/dl) that varies rapidly towards xb, and a correction polynomial sum_j q2_j (x - xc2)^j that makes chosen derivatives at chosen points INTEGERS,
 see ``integerise``) whose derivatives of every order are typed analytically (NumPy), the coefficient functions are
 
     a_k(x) = alpha_k + beta_k * s_k(u),    s in {0, sin(om*u+ph), 2/(1+u^2)-1, tanh(om*u)}   (|s| <= 1),
@@ -43,6 +43,8 @@ def y_deriv(sol, x, k):
     for j in range(k, len(q)):
         # d^k u^j = j!/(j-k)! u^(j-k)
         out = out + q[j] * (math.factorial(j) / math.factorial(j - k)) * u ** (j - k)
+    if "cl" in sol:  # optional term varying rapidly towards the point xb: cl*exp((x - xb)/dl)
+        out = out + sol["cl"] * sol["dl"] ** (-k) * np.exp((x - sol["xb"]) / sol["dl"])
     q2 = sol.get("q2")
     if q2:
         u2 = x - sol["xc2"]
@@ -326,6 +328,8 @@ def self_test(nprob=3, seed=12345):
         order = 1 + i % 3
         pr = random_problem(rng, order, xc=float(rng.uniform(-0.5, 3.0)), kind="ivp" if i % 2 else "bvp", constant=False)
         pr.lam = (1.0, 3.7e-18, 2.5e11)[i % 3]
+        if i != 1:
+            pr.sol.update({"cl": -0.7, "dl": 0.21, "xb": pr.sol["xc"] + 0.9})
         x0 = pr.sol["xc"] - 0.7
         ints = integerise(pr, [(x0, k) for k in range(order)] + ([(x0 + 1.5, 0)] if i % 2 else []), rng)
         assert all(isinstance(n, int) for n in ints) and abs(float(pr.y(np.array([x0]), 0)[0]) - ints[0]) < 1e-12
@@ -334,6 +338,8 @@ def self_test(nprob=3, seed=12345):
         u = X - R(s["xc"])
         ysym = R(s["cs"]) * sp.sin(R(s["w"]) * u + R(s["p"])) + R(s["ce"]) * sp.exp(R(s["l"]) * u) + sum(R(q) * u**j for j, q in enumerate(s["q"]))
         ysym = ysym + sum(R(q) * (X - R(s["xc2"])) ** j for j, q in enumerate(s["q2"]))
+        if "cl" in s:
+            ysym = ysym + R(s["cl"]) * sp.exp((X - R(s["xb"])) / R(s["dl"]))
         fsym = 0
         pts = [float(s["xc"] + t) for t in (-1.1, -0.3, 0.0, 0.45, 1.2)]
         for k in range(order + 1):
